@@ -13,7 +13,8 @@ bool done;
 const char *fault_names[] = {"allocation_failure", nullptr};
 const char *probe_names[] = {"null_returned", "huge_request", "bad_alloc_thrown", "vector_reallocated", "zero_size_request", "length_error_thrown",
                              "free_with_live_neighbours", "alignment_4096", nullptr};
-const size_t SIZES[] = {0, 1, 7, 8, 63, 64, 65, 4095, 4096, 4097, 1u << 20, (size_t)-1 / 2, (size_t)-1 - 63};
+const size_t SIZES[] = {0, 1, 7, 8, 63, 64, 65, 4095, 4096, 4097, 1u << 20, (size_t)-1 / 2, (size_t)-1 - 63,
+                        (4u << 20) + 100, 5u << 20, (8u << 20) + 1, 20u << 20};
 
 void reset()
 {
@@ -27,7 +28,10 @@ void do_plan(int tier)
   plan.mode = m < 4 ? 0 : (m < 9 ? 1 : 2);
   plan.elem = (int)sim_plan(5);
   plan.nops = 1 + (int)sim_plan(A14_MAXOPS);
-  bool faults = rksim_lane_bit() == 16 && sim_plan(3) != 0;  // the tbbmalloc lane cannot inject failures
+  bool big_dance = plan.mode == 0 && sim_plan(3) == 0;
+  if (big_dance)
+    plan.nops = A14_MAXOPS;
+  bool faults = (rksim_lane_bit() == 16 || rksim_lane_bit() == 64) && sim_plan(3) != 0;  // the tbbmalloc lane cannot inject failures
   plan.fail_at = faults ? (long)sim_plan(10) : -1;
   for (int i = 0; i < plan.nops; i++) {
     A14Op &op = plan.ops[i];
@@ -37,6 +41,14 @@ void do_plan(int tier)
       op.slot = (int)sim_plan(A14_SLOTS);
       op.size_idx = (int)sim_plan(sizeof SIZES / sizeof SIZES[0]);
       op.align_log2 = (int)sim_plan(13);
+      if (big_dance) {
+        // blocks of several MiB allocated and released next to small ones, few slots: the allocator's
+        // large-block paths (mmap threshold, trimming, page-granular releases) get exercised
+        static const int pick[] = {13, 14, 15, 16, 13, 14, 5, 2, 9};
+        op.size_idx = pick[sim_plan(9)];
+        op.slot = (int)sim_plan(4);
+        op.align_log2 = 4 + (int)sim_plan(4);
+      }
     } else {
       op.kind = (int)sim_plan(A14_V_NOPS);
       static const int ns[] = {0, 1, 2, 3, 7, 16, 17, 64, 100, 200};
@@ -83,6 +95,10 @@ const SimScenario scen = {"c14", "C14", 16, reset, do_plan, a14_run, check, stuc
 SimRegistrar reg(&scen);
 // the real tbbmalloc keeps its state across runs: one run per forked child, so that every run sees the
 // same allocator state and replays exactly
+// the same histories on the real glibc allocator, without any sanitizer: corruption shows as a changed
+// pattern in a neighbouring block or as glibc's own consistency abort (one run per forked child)
+const SimScenario scen_glibc = {"c14glibc", "C14", 64, reset, do_plan, a14_run, check, stuck, describe, fault_names, probe_names, 1, 1};
+SimRegistrar reg_glibc(&scen_glibc);
 const SimScenario scen_tbb = {"c14tbb", "C14", 32, reset, do_plan, a14_run, check, stuck, describe, fault_names, probe_names, 1, 1};
 SimRegistrar reg_tbb(&scen_tbb);
 }  // namespace
